@@ -15,6 +15,7 @@ func init() {
 	Register(&Profile{Name: "durability-par2-real", Prop: "C01", Weight: 2, Quick: 1500, Thorough: 30000, Fn: func(r *Run) { realCycle(r, false) }})
 	Register(&Profile{Name: "verify-truth-real", Prop: "C03", Weight: 2, Quick: 1500, Thorough: 30000, Fn: func(r *Run) { realCycle(r, false) }})
 	Register(&Profile{Name: "write-discipline-real", Prop: "C02", Weight: 2, Quick: 1500, Thorough: 30000, Fn: func(r *Run) { realCycle(r, r.T.Bool(1, 2, "par1")) }})
+	Register(&Profile{Name: "corrupt-real", Prop: "C13", Weight: 2, Quick: 1200, Thorough: 25000, Fn: func(r *Run) { realCycle(r, r.T.Bool(1, 3, "par1")) }})
 	Register(&Profile{Name: "durability-par1-real", Prop: "C04", Weight: 2, Quick: 2500, Thorough: 50000, Fn: func(r *Run) { realCycle(r, true) }})
 }
 
@@ -182,6 +183,14 @@ func realCycle(r *Run, par1Set bool) {
 		r.oracleVerify1(w, v, tr1, true)
 	case "C02":
 		r.oracleTree(w, v, "verify")
+	case "C13":
+		// any result is truthful (the archive files are undamaged here)
+		if par1Set {
+			r.oracleVerify1(w, v, tr1, true)
+		} else {
+			r.oracleVerify2(w, v, tr2, true, true)
+		}
+		r.oracleTree(w, v, "verify")
 	}
 	needWork := !w.AllIntact()
 	rep := r.realOp(rw, "repair-real", func(res *OpResult) {
@@ -216,6 +225,12 @@ func realCycle(r *Run, par1Set bool) {
 		}
 	case "C02":
 		r.oracleTree(w, rep, "repair")
+	case "C13":
+		// Repair writes only exact originals, and success means restored
+		r.oracleTree(w, rep, "repair")
+		if rep.Err == nil && !w.AllIntact() {
+			r.Violate("success-not-restored", "Repair returned success on the real disk but %s", w.FirstDamaged())
+		}
 	}
 	os.Chdir(origWD)
 	sort.Strings(kinds)
